@@ -432,6 +432,8 @@ class Model:
             kw = {k: self._ev(a, get) for k, a in ast[3]}
             if ast[1] == "vsum":
                 return _vsum_model(args[0])
+            if any(isinstance(a, (tuple, list)) for a in args) or any(isinstance(a, (tuple, list)) for a in kw.values()):
+                raise TypeError("model: sequences are not passed to the arithmetic helper functions (k * tuple repeats it)")
             return FUNCS[self.funcs[ast[1]]](*args, **kw)
         raise AssertionError(ast)
 
